@@ -1919,6 +1919,31 @@ impl<'a, C: Crypto> TransportRunner<'a, C> {
             }
         }
 
+        #[cfg(feature = "groups")]
+        if packet.header.plain.is_group_session() {
+            // The ephemeral session of a group message lives through its exchanges: if this
+            // message did not get one (not an initiator message, duplicate on a fresh session,
+            // an opcode that may not open an exchange, ...) nothing else would ever remove it
+            self.matter.with_state(|state| {
+                let empty_group_session = state
+                    .sessions
+                    .get_for_rx(&packet.peer, &packet.header.plain)
+                    .filter(|sess| {
+                        matches!(
+                            sess.get_session_mode(),
+                            session::SessionMode::Group { .. }
+                        ) && sess.exchanges.iter().all(Option::is_none)
+                            && !sess.is_peer_multicast()
+                    })
+                    .map(|sess| sess.id);
+
+                if let Some(session_id) = empty_group_session {
+                    state.sessions.remove(session_id);
+                    self.transport().notify_session_removed();
+                }
+            });
+        }
+
         Ok(false)
     }
 
